@@ -13,6 +13,10 @@ use rand::Rng;
 pub const VERSION: u8 = 1;
 
 pub fn now() -> Result<i64, SystemTimeError> {
+    #[cfg(octo_squirrel_verif)]
+    if let Some(t) = crate::verif_clock::get() {
+        return Ok(t);
+    }
     Ok(SystemTime::now().duration_since(UNIX_EPOCH)?.as_secs() as i64)
 }
 
